@@ -1,4 +1,5 @@
 import Driver.Machine
+import Driver.Persist
 import CrdtModel.Spec.Lattice
 import CrdtModel.Spec.VClock
 namespace Driver
@@ -40,6 +41,8 @@ def gcounterOps : CrdtOps (GCounter Nat) (Dot Nat) where
   validateMerge := fun _ _ => "ok"
   resetRemove := some GCounter.resetRemove
   eq := some (fun a b => some (decide (a = b)))
+  persist := some (persistWith (gcounterCodec natK))
+  persistOp := some (persistWith (dotCodec natC))
   spec := fun _ K => "state=" ++ showClock (specClockOf K) ++ " read=" ++ toString (specSum K)
 
 def showPNOp (op : PNOp Nat) : String := (match op.dir with | .pos => "+" | .neg => "-") ++ showDot op.dot
@@ -66,6 +69,8 @@ def pncounterOps : CrdtOps (PNCounter Nat) (PNOp Nat) where
   validateMerge := fun _ _ => "ok"
   resetRemove := some PNCounter.resetRemove
   eq := some (fun a b => some (decide (a = b)))
+  persist := some (persistWith (pncounterCodec natK))
+  persistOp := some (persistWith (pnOpCodec natC))
   spec := fun _ K =>
     let P := (K.filter (fun o => o.dir == .pos)).map (·.dot)
     let N := (K.filter (fun o => o.dir == .neg)).map (·.dot)
@@ -87,6 +92,8 @@ def gsetOps : CrdtOps (GSet Nat) Nat where
   validateOp := fun _ _ => "ok"
   validateMerge := fun _ _ => "ok"
   eq := some (fun a b => some (decide (a = b)))
+  persist := some (persistWith (gsetCodec natC))
+  persistOp := some (persistWith natC)
   spec := fun _ K => "read=" ++ showNats (sortDedupNat K) ++ " has1=" ++ showBool (K.contains 1)
 
 def showLWWV : Except LWWValidation Unit → String
@@ -126,6 +133,8 @@ def lwwOps : CrdtOps (LWWReg Nat Nat) (LWWReg Nat Nat) where
   validateOp := fun s op => showLWWV (s.validateOp op)
   validateMerge := fun s o => showLWWV (s.validateMerge o)
   eq := some (fun a b => some (decide (a = b)))
+  persist := some (persistWith (lwwCodec natC natC))
+  persistOp := some (persistWith (lwwCodec natC natC))
   spec := fun _ K => specLWW K
 
 def maxregOps : CrdtOps (MaxReg Nat) Nat where
@@ -143,6 +152,8 @@ def maxregOps : CrdtOps (MaxReg Nat) Nat where
   validateOp := fun _ _ => "ok"
   validateMerge := fun _ _ => "ok"
   eq := some (fun a b => some (decide (a = b)))
+  persist := some (persistWith (maxregCodec natC))
+  persistOp := some (persistWith natC)
   spec := fun _ K => "read=" ++ toString (K.foldl max 0)
 
 def minregOps : CrdtOps (MinReg Nat) Nat where
@@ -160,6 +171,8 @@ def minregOps : CrdtOps (MinReg Nat) Nat where
   validateOp := fun _ _ => "ok"
   validateMerge := fun _ _ => "ok"
   eq := some (fun a b => some (decide (a = b)))
+  persist := some (persistWith (minregCodec natC))
+  persistOp := some (persistWith natC)
   spec := fun _ K => "read=" ++ toString (K.foldl min 1000)
 
 end Driver
